@@ -333,7 +333,7 @@ Section Import.
 
   (* the rules applied to the record *)
   Definition row_fragment (cfg : entry P) (d : row_data) : frag :=
-    extract csv_matches (e_rewrite cfg)
+    extract csv_matches (compile (e_rewrite cfg))
             {| rc_payee := rd_payee d; rc_category := rd_category d;
                rc_secondary_commodity := rd_secondary_commodity d |}.
 
